@@ -1,6 +1,7 @@
 package processor
 
 import (
+	"bytes"
 	"context"
 
 	"github.com/alephium/wormhole-fork/node/pkg/common"
@@ -8,61 +9,221 @@ import (
 	gossipv1 "github.com/alephium/wormhole-fork/node/pkg/proto/gossip/v1"
 	"github.com/alephium/wormhole-fork/node/pkg/vaa"
 	"github.com/alephium/wormhole-fork/node/pkg/zzverif"
-	ethcommon "github.com/ethereum/go-ethereum/common"
 )
 
-// Bounded history: local observation, some honest members' observations (any subset, any of them),
-// then ONE fully adversarial gossiped observation; afterwards everything in the store must verify
-// against the snapshot set with at least quorum signatures.
-func VerifC01_AdversarialObservation() {
-	ctx := context.Background()
-	n := zzverif.Len("n", 1, 2, 3)
-	p := verifNewProcessor(0)
-	keys := make([]ethcommon.Address, n)
-	for i := range keys {
-		keys[i] = ethcommon.Address(zzverif.AddrOf(i))
-	}
-	p.gs = &common.GuardianSet{Keys: keys, Index: zzverif.U32("gsidx")}
-	k := verifMessage("m")
-	zzverif.Assume(!(k.EmitterAddress == p.governanceEmitterAddress && k.EmitterChain == p.governanceChainId))
-	zzverif.Assume(len(k.Payload) > 0)
-	p.handleMessage(ctx, k)
-	own := verifRecvObs(p)
-	digest := own.Hash
-	delivered := 0
-	if zzverif.Bool("deliver-own") {
-		p.handleObservation(ctx, own)
-		delivered++
-	}
-	for j := 1; j < n; j++ {
-		if zzverif.Bool("deliver-member") {
-			sig := zzverif.SignBy(j, digest)
-			a := zzverif.AddrOf(j)
-			p.handleObservation(ctx, &gossipv1.SignedObservation{Addr: a[:], Hash: digest, Signature: sig})
-			delivered++
+// every complete VAA the node has broadcast so far and the one it stores for k, checked against `set`
+func verifC01CheckOutputs(p *Processor, k *common.MessagePublication, set *common.GuardianSet, what string) (published bool) {
+	for _, msg := range verifDrainSend(p) {
+		if b := verifEnvelopeVAA(msg); b != nil {
+			published = true
+			zzverif.Reach("broadcast")
+			v := verifCheckComplete(b, set, what+":broadcast")
+			if v != nil && set != nil {
+				zzverif.Assert(v.GuardianSetIndex == set.Index, what+":broadcast-names-set-in-force-at-observation")
+			}
 		}
 	}
-	// adversary: every field arbitrary
-	adv := &gossipv1.SignedObservation{Addr: zzverif.Bytes("adv.addr", 20), Hash: zzverif.Bytes("adv.hash", 32), Signature: zzverif.Bytes("adv.sig", 65)}
-	zzverif.NoPanic(func() { p.handleObservation(ctx, adv) })
-
-	quorum := CalculateQuorum(n)
-	id := vaa.VAAID{EmitterChain: k.EmitterChain, EmitterAddress: k.EmitterAddress, TargetChain: k.TargetChain, Sequence: k.Sequence}
-	b, err := p.db.GetSignedVAABytes(id)
+	b, err := p.db.GetSignedVAABytes(verifIDOf(k))
 	if err == nil {
 		zzverif.Reach("stored")
-		v, uerr := vaa.Unmarshal(b)
-		zzverif.Assert(uerr == nil, "stored-decodes")
-		if uerr != nil {
-			return
+		v := verifCheckComplete(b, set, what+":stored")
+		if v != nil && set != nil {
+			zzverif.Assert(v.GuardianSetIndex == set.Index, what+":stored-names-set-in-force-at-observation")
+			own := verifVAAOf(k, set.Index)
+			zzverif.Assert(v.SigningMsg() == own.SigningMsg(), what+":stored-body-is-own-observation")
 		}
-		zzverif.Assert(len(v.Signatures) >= quorum, "stored-quorum")
-		zzverif.Assert(v.VerifySignatures(keys), "stored-verifies")
-		zzverif.Assert(v.GuardianSetIndex == p.gs.Index, "stored-names-set")
-		zzverif.Assert(delivered+1 >= quorum, "published-only-with-quorum-delivered")
-	} else {
-		zzverif.Assert(err == db.ErrVAANotFound, "lookup-error")
-		zzverif.Reach("not-stored")
-		zzverif.Assert(delivered < quorum, "prompt")
+		return true
 	}
+	zzverif.Assert(err == db.ErrVAANotFound, what+":lookup-error")
+	return published
+}
+
+// C01, observation path, one guardian set: the node (own key at any position, or not a member) observes a message;
+// before and after that, observations arrive: honest ones from an arbitrary subset of members (any order relative to
+// the own loopback), and ONE fully adversarial one (every byte of address, digest and signature symbolic) at an arbitrary
+// place. Whatever is stored or broadcast as complete must verify against the set with quorum.
+func VerifC01_Static() { zzverif.Supervised(verifC01Static) }
+
+func verifC01Static(ctx context.Context) {
+	n := zzverif.Len("n", 1, 2, 3, 4)
+	own := zzverif.Len("own", 0, 1, 2, 3, 4) // own == n: the node's key is not in the set
+	zzverif.Assume(own <= n)
+	p := verifNewProcessor(own)
+	S := verifSet(zzverif.U32("gsidx"), verifRange(0, n)...)
+	p.gs = S
+	k := verifMessage("m")
+	zzverif.Assume(!verifIsGov(k) && len(k.Payload) > 0)
+	dg := verifVAAOf(k, 0).SigningMsg()
+	digest := dg[:]
+	advAt := zzverif.Len("advAt", 0, 1, 2) // adversarial observation: before the local observation / in the middle / last
+	adv := &gossipv1.SignedObservation{Addr: zzverif.Blob("adv.addr", 20), Hash: zzverif.Blob("adv.hash", 32), Signature: zzverif.Blob("adv.sig", 65)}
+
+	early := zzverif.Len("early", 0, 1, 2, 3, 4, 9) // one member's observation arrives before the node has seen the message (9: none)
+	if early != 9 {
+		zzverif.Assume(early < n && early != own)
+		zzverif.NoPanic(func() { p.handleObservation(ctx, verifObsBy(early, digest)) })
+	}
+	if advAt == 0 {
+		zzverif.NoPanic(func() { p.handleObservation(ctx, adv) })
+	}
+	zzverif.Assert(!verifC01CheckOutputs(p, k, S, "before-local"), "nothing-published-before-local-observation")
+
+	zzverif.NoPanic(func() { p.handleMessage(ctx, k) })
+	loop := verifRecvObs(p)
+	zzverif.Assert(loop != nil, "own-observation-looped-back")
+	lbFirst := zzverif.Len("loopbackFirst", 0, 1) == 1
+	if lbFirst && loop != nil {
+		zzverif.NoPanic(func() { p.handleObservation(ctx, loop) })
+	}
+	for j := 0; j < n; j++ {
+		if j == own || j == early {
+			continue
+		}
+		if zzverif.Len("deliver", 0, 1) == 1 {
+			zzverif.NoPanic(func() { p.handleObservation(ctx, verifObsBy(j, digest)) })
+		}
+		if advAt == 1 && j == 0 {
+			zzverif.NoPanic(func() { p.handleObservation(ctx, adv) })
+		}
+	}
+	if !lbFirst && loop != nil {
+		zzverif.NoPanic(func() { p.handleObservation(ctx, loop) })
+	}
+	if advAt == 2 || (advAt == 1 && (n == 1 || own == 0 || early == 0)) {
+		zzverif.NoPanic(func() { p.handleObservation(ctx, adv) })
+	}
+	if verifC01CheckOutputs(p, k, S, "end") {
+		zzverif.Reach("published")
+	} else {
+		zzverif.Reach("not-published")
+	}
+}
+
+// C01, guardian-set change: set A in force, possibly one early peer observation, the set may change to B before or
+// after the node's own observation, then members of A and B observe. The set the published VAA must verify against -
+// and name - is the one in force when the node observed the message.
+func VerifC01_SetChange() { zzverif.Supervised(verifC01SetChange) }
+
+func verifC01SetChange(ctx context.Context) {
+	nA := zzverif.Len("nA", 1, 2, 3)
+	nB := zzverif.Len("nB", 1, 2, 3)
+	shift := zzverif.Len("shift", 0, 1, 2) // B = keys shift .. shift+nB-1 (overlaps A partially, fully or not at all)
+	own := zzverif.Len("own", 0, 1, 2)
+	zzverif.Assume(own < nA || (own >= shift && own < shift+nB))
+	p := verifNewProcessor(own)
+	idxA := zzverif.U32("idxA")
+	A := verifSet(idxA, verifRange(0, nA)...)
+	B := verifSet(idxA+1, verifRange(shift, nB)...)
+	p.gs = A
+	k := verifMessage("m")
+	zzverif.Assume(!verifIsGov(k) && len(k.Payload) > 0)
+	dg := verifVAAOf(k, 0).SigningMsg()
+	digest := dg[:]
+	when := zzverif.Len("change", 1, 2) // 1: before the own observation, 2: after it
+
+	early := zzverif.Len("early", 0, 1, 2, 3, 4, 9)
+	if early != 9 {
+		zzverif.Assume(early != own && early < 5)
+		zzverif.NoPanic(func() { p.handleObservation(ctx, verifObsBy(early, digest)) })
+	}
+	if when == 1 {
+		p.gs = B
+	}
+	S := p.gs // in force at the node's own observation
+	zzverif.NoPanic(func() { p.handleMessage(ctx, k) })
+	loop := verifRecvObs(p)
+	lbFirst := zzverif.Len("loopbackFirst", 0, 1) == 1
+	if lbFirst && loop != nil {
+		zzverif.NoPanic(func() { p.handleObservation(ctx, loop) })
+	}
+	if when == 2 {
+		p.gs = B
+	}
+	for j := 0; j < 5; j++ {
+		if j == own || j == early || !(j < nA || (j >= shift && j < shift+nB)) {
+			continue
+		}
+		if zzverif.Len("deliver", 0, 1) == 1 {
+			zzverif.NoPanic(func() { p.handleObservation(ctx, verifObsBy(j, digest)) })
+		}
+	}
+	if !lbFirst && loop != nil {
+		zzverif.NoPanic(func() { p.handleObservation(ctx, loop) })
+	}
+	if verifC01CheckOutputs(p, k, S, "end") {
+		zzverif.Reach("published")
+	} else {
+		zzverif.Reach("not-published")
+	}
+}
+
+// C01, inbound / backfill path: a peer's SignedVAAWithQuorum with k signatures (each slot: any member's honest signature,
+// a member's signature over another digest, 65 arbitrary bytes, or bytes on which recovery fails; index byte symbolic) is
+// stored only if it verifies against the node's CURRENT set with quorum, and never replaces a VAA already stored under
+// the same identifier.
+func VerifC01_Inbound() { zzverif.Supervised(verifC01Inbound) }
+
+func verifC01Inbound(ctx context.Context) {
+	n := zzverif.Len("n", 0, 1, 2, 3, 4, 6)
+	p := verifNewProcessor(0)
+	cur := verifSet(zzverif.U32("gsidx"), verifRange(0, n)...)
+	if zzverif.Len("haveSet", 0, 1) == 1 {
+		p.gs = cur
+	}
+	k := verifMessage("m")
+	v := verifVAAOf(k, zzverif.U32("named"))
+	dg := v.SigningMsg()
+	other := dg
+	other[0] ^= 1
+	nsig := zzverif.Len("nsig", 0, 1, 2, 3, 4, 5)
+	for i := 0; i < nsig; i++ {
+		s := &vaa.Signature{Index: zzverif.U8("idx")}
+		sel := zzverif.Len("sel", 0, 1, 2, 3, 4, 5, 6, 7, 8)
+		switch {
+		case sel < 6:
+			zzverif.Assume(sel < n)
+			copy(s.Signature[:], zzverif.SignBy(sel, dg[:]))
+		case sel == 6:
+			zzverif.Assume(n > 0)
+			copy(s.Signature[:], zzverif.SignBy(0, other[:]))
+		case sel == 7:
+			copy(s.Signature[:], zzverif.Blob("rawsig", 65))
+		default:
+			copy(s.Signature[:], zzverif.MalformedSig("badsig"))
+		}
+		v.Signatures = append(v.Signatures, s)
+	}
+	raw, merr := v.Marshal()
+	zzverif.Assume(merr == nil)
+	// optionally a VAA is already stored under the same identifier (one signature, other payload byte)
+	var before []byte
+	if zzverif.Len("prestored", 0, 1) == 1 {
+		w := verifVAAOf(k, zzverif.U32("named0"))
+		w.Payload = append([]byte{0x77}, k.Payload...)
+		ws := &vaa.Signature{Index: 0}
+		copy(ws.Signature[:], zzverif.Blob("presig", 65))
+		w.Signatures = []*vaa.Signature{ws}
+		zzverif.Assume(p.db.StoreSignedVAA(w) == nil)
+		before, _ = w.Marshal()
+	}
+	zzverif.NoPanic(func() { p.handleInboundSignedVAAWithQuorum(ctx, &gossipv1.SignedVAAWithQuorum{Vaa: raw}) })
+
+	zzverif.Assert(len(verifDrainSend(p)) == 0, "inbound-path-broadcasts-nothing")
+	got, err := p.db.GetSignedVAABytes(verifIDOf(k))
+	if before != nil {
+		zzverif.Reach("prestored")
+		zzverif.Assert(err == nil && bytes.Equal(got, before), "stored-vaa-never-replaced-by-peer-copy")
+		return
+	}
+	if err != nil {
+		zzverif.Assert(err == db.ErrVAANotFound, "lookup-error")
+		zzverif.Reach("rejected")
+		// completeness of the inbound path is not part of the statement; only record that rejection is reachable
+		return
+	}
+	zzverif.Reach("accepted")
+	zzverif.Assert(p.gs != nil, "accepted-only-with-a-known-set")
+	zzverif.Assert(len(k.Payload) > 0, "accepted-has-payload")
+	zzverif.Assert(bytes.Equal(got, raw), "stored-bytes-are-the-peer-bytes")
+	verifCheckComplete(got, p.gs, "inbound")
 }
